@@ -171,6 +171,7 @@ def main():
     chk = Check("C16")
     M = "vf.ch.h_c16"
     conds = [Cond(M, "check_iff3", "EpochManager accepts a schedule of <= 3 epochs iff it is valid; handed-out epoch states carry consecutive indices and prefix-sum start times", 300),
+             Cond(M, "check_iff3", "EpochManager given the schedule as a one-shot generator (any iterable is accepted): accepts iff valid, hands out every epoch", 300, env={"FORM": "generator"}, signature="check_iff3:generator"),
              Cond(M, "check_append_later", "appending an epoch after epochs were handed out is accepted iff the extended schedule is valid", 300),
              *[Cond(M, "check_append_sequence", f"two appends in a row on a live manager (constructor schedule of {ncf} epoch(s){', the last of type ' + str(lt) if lt >= 0 else ''}): each accepted iff the schedule "
                     "accepted so far extended by it is valid (a rejected append leaves no trace); handed-out states follow the accepted schedule", 600,
